@@ -129,6 +129,32 @@ func genBatch(rt *rapid.T) *Batch {
 		if !patient && rapid.IntRange(0, 7).Draw(rt, label+"ownTry") == 0 {
 			rp.TryMs = rapid.IntRange(20, 60).Draw(rt, label+"tryTimeoutMs")
 		}
+		if !patient && b.Proto != "tcp" && rapid.IntRange(0, 3).Draw(rt, label+"answerNearTimer") == 0 {
+			// the answer of one attempt lands within a millisecond of the timer that guards it
+			try, glob := b.TryMs, b.GlobalMs
+			if rp.TryMs > 0 {
+				try = rp.TryMs
+			}
+			if rp.TimeoutMs > 0 {
+				glob = rp.TimeoutMs
+			}
+			for j := range rp.Attempts {
+				a := &rp.Attempts[j]
+				if a.Kind != "ok" || a.DelayMs != 0 {
+					continue
+				}
+				base := 0
+				if try > 0 && try < glob {
+					base = try
+				} else if j == 0 {
+					base = glob
+				}
+				if base > 0 {
+					a.NearUs = base*1000 + 100*rapid.IntRange(-8, 8).Draw(rt, label+"nearDelta")
+					break
+				}
+			}
+		}
 		if b.Deadline && rapid.IntRange(0, 2).Draw(rt, label+"hasDeadline") > 0 {
 			rp.TermUs = rapid.OneOf(rapid.IntRange(1, 3000), rapid.IntRange(3000, 60000), rapid.IntRange(60000, 160000)).Draw(rt, label+"deadlineUs")
 			rp.TermCode = rapid.SampledFrom([]int{403, 429, 500, 503, 504}).Draw(rt, label+"deadlineCode")
@@ -638,6 +664,15 @@ func runBatch(t ev.TB, part string, b *Batch) (classes []string, nontrivial bool
 	}
 	if len(r.poolShutdownMs) > 0 {
 		cls["pool-shutdown"] = true
+	}
+	for i := range b.Conns {
+		for j := range b.Conns[i].Reqs {
+			for _, a := range b.Conns[i].Reqs[j].Attempts {
+				if a.NearUs > 0 {
+					cls["answer-within-1ms-of-its-timer"] = true
+				}
+			}
+		}
 	}
 	if b.Deadline {
 		cls["deadline-filter"] = true
